@@ -22,7 +22,7 @@ CHECKS = {
     "C13": ("stochastic GCP solve loop with the estimator stubbed by fresh symbols: best-so-far model returned, rollback on failed epochs, stopping, trace lengths, bounds clipping, reuse of one optimizer object == fresh object; samplers: symbolic draws map to valid subscripts / stored entries with the documented weights; L-BFGS-B wrapper around an opaque scipy stub", "5 C13"),
     "C14": ("nvecs on dense / sparse / Kruskal / Tucker holders with the eigen-solver as a contract stub: the matrix handed over is the mode-n Gram matrix of the denoted array, solver switch, r leading eigenvector columns in decreasing order of magnitude, sign convention", "5 C14"),
     "C16": ("export then import on symbolic elements with token stand-ins for ndarray.tofile / numpy.fromfile (ordering logic is the real code): dense N<=4(5), sparse in every stored order with both index bases, Kruskal, matrices; precision lemma on the format constants read from the current source", "5 C16"),
-    "C18": ("relations between two bounded runs: CP-ALS dense vs sparse (same systems handed to the solver, same model), data scaled by symbolic c > 0, consistent mode relabelling, printing on/off for CP-ALS / HOSVD / Tucker-ALS / CP-APR MU (two outer iterations, one symbolic input, canonical rational functions), CP-APR MU dense vs sparse; CP-APR PDNR/PQNR (non-gating attempt), GCP and seeds not claimed", "5 C18"),
+    "C18": ("relations between two bounded runs: CP-ALS dense vs sparse (same systems handed to the solver, same model), data scaled by symbolic c > 0, consistent mode relabelling, printing on/off for CP-ALS / HOSVD / Tucker-ALS / CP-APR MU (two outer iterations, one symbolic input, canonical rational functions), CP-APR MU dense vs sparse; CP-APR PDNR / MU dense vs sparse for every stopping tolerance (symbolic stoptol, concrete data with empty slices); PDNR/PQNR with symbolic data (non-gating attempt), GCP and seeds not claimed", "5 C18"),
     "C12": ("loss vs gradient through dual numbers over the real handles for all data / model / parameter values; evaluate() and estimate() against an uninterpreted loss pair (so for every loss): objective, exact partial derivatives, all-modes vs one-mode MTTKRP", "5 C12"),
     "C15": ("symmetrize == average over within-group permutations, result passes the test, idempotence, symmetric input kept; issymmetric exact on every path (invariance proved / refuted under the path condition); both versions; Kruskal variant", "5 C15"),
     "C17": ("index arithmetic with symbolic integer subscripts (LIA), mode-selection preprocessing, row-set helpers and Khatri-Rao against their definitions", "5 C17"),
